@@ -183,6 +183,7 @@ theorem driverStep_schedule (s : State) (hu : JobsUnique s) (b j a i : Nat) : Dr
   split
   · exact driverStep_of_same rfl (SamePU.refl s)
   · rename_i job hj
+    replace hj := findJobFk_some hj
     split_ifs with hg
     · refine ⟨⟨isJob b j, .Running, some a, by rw [updateJobs_jobs, schedulePrep_jobs], rfl, ?_⟩,
         (samePU_schedulePrep s b j a i job).trans (samePU_updateJobs _ _ _)⟩
@@ -198,6 +199,7 @@ theorem driverStep_startLike (s : State) (hu : JobsUnique s) (b j a i : Nat) (ts
   split
   · exact driverStep_of_same rfl (SamePU.refl s)
   · rename_i job hj
+    replace hj := findJobFk_some hj
     split_ifs with hg
     · refine ⟨⟨isJob b j, ns, some a, by rw [updateJobs_jobs, startPrep_jobs], by rcases hns with h | h <;> simp [h, JState.active], ?_⟩,
         (samePU_startPrep s b j a i ts d job).trans (samePU_updateJobs _ _ _)⟩
@@ -427,8 +429,10 @@ theorem complete_cases (s : State) (b j : Nat) (att inst : Option Nat) (ns : JSt
       (complete s b j att inst ns st e r d).1.jobs = s.jobs.map (completeMap s b j att ns)) := by
   unfold complete
   split
-  · exact ⟨SamePU.refl s, Or.inl ⟨rfl, by intro job hj; simp_all⟩⟩
+  · -- no job row, or `add_attempt` violated the foreign key on `instances`: nothing written, never `ok 0`
+    exact ⟨SamePU.refl s, Or.inl ⟨rfl, by intro job _ h; revert h; dsimp only; split_ifs <;> simp⟩⟩
   · rename_i job hj
+    replace hj := findJobFk_some hj
     split_ifs with h1 h2 h3
     · exact ⟨samePU_completePrep .., Or.inl ⟨by simp, by intro _ _ h; simp at h⟩⟩
     · refine ⟨((samePU_completePrep s b j att inst st e r d job).trans (samePU_completeJob _ b j att ns job)).trans
@@ -813,7 +817,17 @@ def noEarlyChild (s : State) : Op → Bool
 
 /-! ## the lifecycle invariant -/
 
-structure LInv (s : State) : Prop where
+/-- admissible relations between the number of parents not done and `n_pending_parents`: `≤` (all the lifecycle needs)
+and `=` (C05; needs one more hypothesis on first-update bunches) -/
+structure NppRel (R : Int → Int → Prop) : Prop where
+  refl : ∀ a, R a a
+  le : ∀ a c, R a c → a ≤ c
+  pred : ∀ a c, R a c → R (a - 1) (c - 1)
+
+theorem nppRel_le : NppRel (· ≤ ·) := ⟨Int.le_refl, fun _ _ h => h, fun _ _ h => by omega⟩
+theorem nppRel_eq : NppRel (· = ·) := ⟨fun _ => rfl, fun _ _ h => by omega, fun _ _ h => by omega⟩
+
+structure LInv (R : Int → Int → Prop) (s : State) : Prop where
   uniq : JobsUnique s
   upd : UpdOrdered s
   /-- every job lies in the reserved id range of its update -/
@@ -826,16 +840,18 @@ structure LInv (s : State) : Prop where
   /-- a job with a parent that is not done is Pending -/
   pp : ∀ r ∈ s.parents, ∀ c p, findJob s r.1 r.2.1 = some c → findJob s r.1 r.2.2 = some p → p.state.terminal = false →
     c.state = .Pending
-  /-- `n_pending_parents` of a Pending job (update 1 or committed) is at least the number of its parents not done -/
+  /-- `n_pending_parents` of a Pending job (update 1 or committed) is `R`-related to the number of its parents not done -/
   npp : ∀ x ∈ s.jobs, x.state = .Pending → (x.update = 1 ∨ updCommitted s x.batch x.update = true) →
-    (nPendingParents s x.batch x.id : Int) ≤ x.npp
+    R (nPendingParents s x.batch x.id : Int) x.npp
 
-theorem linv_init : LInv init :=
+variable {R : Int → Int → Prop}
+
+theorem linv_init : LInv R init :=
   ⟨by simp [JobsUnique, init], by intro u hu; simp [init] at hu, by intro x hx; simp [init] at hx,
    by intro r hr; simp [init] at hr, by simp [init], by intro x hx; simp [init] at hx, by intro r hr; simp [init] at hr,
    by intro x hx; simp [init] at hx⟩
 
-theorem linv_same3 {s s' : State} (h : Same3 s s') (hi : LInv s) : LInv s' := by
+theorem linv_same3 {s s' : State} (h : Same3 s s') (hi : LInv R s) : LInv R s' := by
   obtain ⟨h1, h2, h3⟩ := h
   cases s; cases s'
   simp only at h1 h2 h3
@@ -851,10 +867,10 @@ theorem parentDone_mapF {s s' : State} {F : Job → Job} (hF : JobFrame F) (e : 
   | some y => exact ht y (mem_of_findJob h).1
 
 /-- an in-place update that keeps every row's class (Pending / active / which terminal state) and `n_pending_parents` -/
-theorem linv_mapClass {s s' : State} (hi : LInv s) (hu' : JobsUnique s') {F : Job → Job} (hF : JobFrame F)
+theorem linv_mapClass {s s' : State} (hi : LInv R s) (hu' : JobsUnique s') {F : Job → Job} (hF : JobFrame F)
     (hj : s'.jobs = s.jobs.map F) (hpu : SamePU s s')
     (hcls : ∀ x ∈ s.jobs, ((F x).state = .Pending ↔ x.state = .Pending) ∧ (F x).state.terminal = x.state.terminal ∧
-      (F x).npp = x.npp) : LInv s' := by
+      (F x).npp = x.npp) : LInv R s' := by
   obtain ⟨hp, hupd⟩ := hpu
   have hdone := parentDone_mapF hF hj (fun x hx => (hcls x hx).2.1)
   refine ⟨hu', by unfold UpdOrdered; rw [hupd]; exact hi.upd, ?_, ?_, by rw [hp]; exact hi.pnd, ?_, ?_, ?_⟩
@@ -894,7 +910,7 @@ theorem linv_mapClass {s s' : State} (hi : LInv s) (hu' : JobsUnique s') {F : Jo
     rw [(hF x).1, (hF x).2.2.1, updCommitted_congr hupd] at h2
     exact hi.npp x hx ((hcls x hx).1.mp h1) h2
 
-theorem linv_driver {s s' : State} (hi : LInv s) (hu' : JobsUnique s') (h : DriverStep s s') : LInv s' := by
+theorem linv_driver {s s' : State} (hi : LInv R s) (hu' : JobsUnique s') (h : DriverStep s s') : LInv R s' := by
   obtain ⟨⟨p, st, a, hj, hst, hall⟩, hpu⟩ := h
   refine linv_mapClass hi hu' (JobFrame.ite _ (jobFrame_setStateAttempt st a)) hj hpu ?_
   intro x hx
@@ -908,9 +924,9 @@ theorem linv_driver {s s' : State} (hi : LInv s) (hu' : JobsUnique s') (h : Driv
     · simp only [setStateAttempt]; rw [active_not_terminal hst, active_not_terminal hact]
   · simp [hpx]
 
-theorem linv_newUpdate {s s' : State} (hi : LInv s) (b : Nat) (n : Update) (hj : s'.jobs = s.jobs)
+theorem linv_newUpdate {s s' : State} (hi : LInv R s) (b : Nat) (n : Update) (hj : s'.jobs = s.jobs)
     (hp : s'.parents = s.parents) (hu : s'.updates = s.updates ++ [n]) (hb : n.batch = b) (h1 : 1 ≤ n.id)
-    (hlt : ∀ x ∈ s.updates, x.batch = b → x.id < n.id ∧ x.startJob + x.nJobs ≤ n.startJob) : LInv s' := by
+    (hlt : ∀ x ∈ s.updates, x.batch = b → x.id < n.id ∧ x.startJob + x.nJobs ≤ n.startJob) : LInv R s' := by
   have hcom : ∀ x ∈ s.jobs, updCommitted s' x.batch x.update = updCommitted s x.batch x.update := by
     intro x hx
     obtain ⟨u, hfu, _⟩ := hi.range x hx
@@ -943,7 +959,7 @@ theorem linv_newUpdate {s s' : State} (hi : LInv s) (b : Nat) (n : Update) (hj :
 
 /-! ## `commit_batch_update` preserves the invariant -/
 
-theorem inUpdRange_update {s : State} (hi : LInv s) {b upd : Nat} {u : Update} (hu : findUpdate s b upd = some u)
+theorem inUpdRange_update {s : State} (hi : LInv R s) {b upd : Nat} {u : Update} (hu : findUpdate s b upd = some u)
     {x : Job} (hx : x ∈ s.jobs) (hr : inUpdRange b u x = true) : x.batch = b ∧ x.update = upd := by
   unfold inUpdRange at hr
   simp only [decide_eq_true_eq] at hr
@@ -954,7 +970,7 @@ theorem inUpdRange_update {s : State} (hi : LInv s) {b upd : Nat} {u : Update} (
   subst this
   exact ⟨hr.1, by rw [← hid', hid]⟩
 
-theorem inUpdRange_of_update {s : State} (hi : LInv s) {b upd : Nat} {u : Update} (hu : findUpdate s b upd = some u)
+theorem inUpdRange_of_update {s : State} (hi : LInv R s) {b upd : Nat} {u : Update} (hu : findUpdate s b upd = some u)
     {x : Job} (hx : x ∈ s.jobs) (hb : x.batch = b) (hupd : x.update = upd) : inUpdRange b u x = true := by
   obtain ⟨u', hu', hr'⟩ := hi.range x hx
   rw [hb, hupd, hu] at hu'
@@ -971,11 +987,11 @@ theorem nRunnable_pos_of_parent {s : State} {b c pid : Nat} {p : Job} (hr : (b, 
   rw [hp] at this
   simp [isRunnable_eq, hnt] at this
 
-theorem linv_commit {s s' : State} (hi : LInv s) (hu' : JobsUnique s') {b upd : Nat} {u : Update}
+theorem linv_commit {s s' : State} (hR : NppRel R) (hi : LInv R s) (hu' : JobsUnique s') {b upd : Nat} {u : Update}
     (hu : findUpdate s b upd = some u) (hc : u.committed = false) (hp : s'.parents = s.parents)
     (hupd : s'.updates = s.updates.map (markCommitted b upd))
     (hj : ((upd = 1 ∨ u.nJobs = 0) ∧ s'.jobs = s.jobs) ∨
-      (upd ≠ 1 ∧ s'.jobs = s.jobs.map (fun j => if inUpdRange b u j then recomputeJob s b j else j))) : LInv s' := by
+      (upd ≠ 1 ∧ s'.jobs = s.jobs.map (fun j => if inUpdRange b u j then recomputeJob s b j else j))) : LInv R s' := by
   -- one description of both cases
   obtain ⟨F, hF, hjobs, ha, hb⟩ : ∃ F : Job → Job, JobFrame F ∧ s'.jobs = s.jobs.map F ∧
       (∀ x ∈ s.jobs, F x = x ∨ (upd ≠ 1 ∧ x.batch = b ∧ x.update = upd ∧ F x = recomputeJob s b x)) ∧
@@ -1069,10 +1085,10 @@ theorem linv_commit {s s' : State} (hi : LInv s) (hu' : JobsUnique s') {b upd : 
     obtain ⟨x, hx, rfl⟩ := hx'
     rw [(hF x).1, (hF x).2.1, hnpp x hx]
     rw [(hF x).1, (hF x).2.2.1, updCommitted_markCommitted hupd] at h2
-    have hrec : x.batch = b → F x = recomputeJob s b x → (nPendingParents s x.batch x.id : Int) ≤ (F x).npp := by
+    have hrec : x.batch = b → F x = recomputeJob s b x → R (nPendingParents s x.batch x.id : Int) (F x).npp := by
       intro hxb h
       rw [h, (recomputeJob_eq s b x).2, ← hxb, hnrun x hx]
-      exact Int.le_refl _
+      exact hR.refl _
     rcases ha x hx with h | ⟨_, hxb, hxu, h⟩
     · by_cases hold : x.update = 1 ∨ updCommitted s x.batch x.update = true
       · rw [h] at h1 ⊢
@@ -1095,7 +1111,7 @@ theorem isChildOf_iff {s : State} {b j : Nat} {x : Job} :
   unfold isChildOf; simp
 
 /-- what the two UPDATEs do to each row, given the invariant -/
-theorem completeMap_cases {s : State} (hi : LInv s) {b j : Nat} (att : Option Nat) (ns : JState) {job : Job}
+theorem completeMap_cases {s : State} (hi : LInv R s) {b j : Nat} (att : Option Nat) (ns : JState) {job : Job}
     (hj : findJob s b j = some job) (hact : job.state.active = true) (x : Job) (hx : x ∈ s.jobs) :
     (x = job ∧ completeMap s b j att ns x = setStateAttempt ns att x) ∨
     (x ≠ job ∧ isChildOf s b j x = true ∧ x.state = .Pending ∧ completeMap s b j att ns x = childUpdate ns x) ∨
@@ -1143,10 +1159,10 @@ theorem noEarlyChild_spec {s : State} {b j : Nat} {att inst : Option Nat} {ns : 
 theorem childUpdate_eq (ns : JState) (x : Job) :
     (childUpdate ns x).state = (if x.npp = 1 then .Ready else .Pending) ∧ (childUpdate ns x).npp = x.npp - 1 := ⟨rfl, rfl⟩
 
-theorem linv_complete {s s' : State} (hi : LInv s) (hu' : JobsUnique s') {b j : Nat} {att inst : Option Nat} {ns : JState}
+theorem linv_complete {s s' : State} (hR : NppRel R) (hi : LInv R s) (hu' : JobsUnique s') {b j : Nat} {att inst : Option Nat} {ns : JState}
     {st e : Option Int} {r : String} {d : Nat} {job : Job} (hns : ns.terminal = true) (hj : findJob s b j = some job)
     (hact : job.state.active = true) (hpu : SamePU s s') (hjobs : s'.jobs = s.jobs.map (completeMap s b j att ns))
-    (hne : noEarlyChild s (.complete b j att inst ns st e r d) = true) : LInv s' := by
+    (hne : noEarlyChild s (.complete b j att inst ns st e r d) = true) : LInv R s' := by
   obtain ⟨hp, hupd⟩ := hpu
   have hF := jobFrame_completeMap s b j att ns
   have hcases := completeMap_cases hi att ns hj hact
@@ -1245,7 +1261,7 @@ theorem linv_complete {s s' : State} (hi : LInv s) (hu' : JobsUnique s') {b j : 
           intro hn1
           obtain ⟨hcb', hcj⟩ := isChildOf_iff.mp k2
           have hrb : r.1 = b := by rw [← hcb, hcb']
-          have hq := hi.npp c hcm hcp (noEarlyChild_spec hne c hcm k2)
+          have hq := hR.le _ _ (hi.npp c hcm hcp (noEarlyChild_spec hne c hcm k2))
           have h2le : 2 ≤ nPendingParents s c.batch c.id := by
             unfold nPendingParents
             refine two_le_length_of_mem (a := r.2.2) (b := j) ?_ ?_ ?_
@@ -1269,9 +1285,10 @@ theorem linv_complete {s s' : State} (hi : LInv s) (hu' : JobsUnique s') {b j : 
     rcases hcases x hx with ⟨_, k2⟩ | ⟨_, k2, k3, k4⟩ | ⟨_, k2, k4⟩
     · rw [k2] at h1; simp only [setStateAttempt] at h1; rw [h1] at hns; simp [JState.terminal] at hns
     · rw [k4, (childUpdate_eq ns x).2]
-      have := hi.npp x hx k3 h2
-      have := hcount_child x hx k2
-      omega
+      have h3 := hR.pred _ _ (hi.npp x hx k3 h2)
+      have h4 := hcount_child x hx k2
+      have : (nPendingParents s' x.batch x.id : Int) = (nPendingParents s x.batch x.id : Int) - 1 := by omega
+      rw [this]; exact h3
     · rw [k4] at h1 ⊢
       rw [hcount_other x hx k2]
       exact hi.npp x hx h1 h2
@@ -1403,11 +1420,14 @@ theorem mkJob_pending_of_parent (u : Update) (b : Nat) (sp : JobSpec) {p : Nat} 
 theorem mkJob_npp (u : Update) (b : Nat) (sp : JobSpec) : (mkJob u b sp).npp = ((jobParents u sp).length : Int) := by
   simp [mkJob, jobParents]
 
-theorem linv_insert {s s' : State} (hi : LInv s) (hu' : JobsUnique s') {b upd user : Nat} {specs : List JobSpec}
+theorem linv_insert {s s' : State} (hi : LInv R s) (hu' : JobsUnique s') {b upd user : Nat} {specs : List JobSpec}
     {u : Update} {bt : Batch} {first : JobSpec} (hu : findUpdate s b upd = some u)
     (hrej : insertJobsReject s b user u bt first specs = none) (hj : s'.jobs = s.jobs ++ specs.map (mkJob u b))
     (hp : s'.parents = s.parents ++ specParents u b specs) (hupd : s'.updates = s.updates)
-    (hok : specsOK s (.insertJobs b upd user specs) = true) : LInv s' := by
+    (hok : specsOK s (.insertJobs b upd user specs) = true)
+    (hins : ∀ sp ∈ specs, u.id = 1 →
+      R (((jobParents u sp).filter fun p => !parentDone s' b p).length : Int) ((jobParents u sp).length : Int)) :
+    LInv R s' := by
   obtain ⟨hall, hnd, hunc, -⟩ := insertJobsReject_none hrej
   have hpn := insertJobsReject_parentsNodup hrej
   have hspec := specsOK_spec hok hu
@@ -1530,29 +1550,45 @@ theorem linv_insert {s s' : State} (hi : LInv s) (hu' : JobsUnique s') {b upd us
         unfold parentsOf
         rw [hp, List.filter_append, hnil, List.nil_append]
         exact parents_of_spec hids hsp
-      show ((nPendingParents s' b (specId u sp) : Nat) : Int) ≤ _
+      have hu1 : u.id = 1 := by
+        rcases h2 with h2 | h2
+        · exact h2
+        · exfalso
+          have : updCommitted s' b u.id = true := h2
+          rw [updCommitted_congr hupd, huid, hcommitted] at this
+          simp at this
+      show R ((nPendingParents s' b (specId u sp) : Nat) : Int) _
       unfold nPendingParents
       rw [hpo]
-      exact Int.ofNat_le.mpr (List.length_filter_le _ _)
+      exact hins sp hsp hu1
 
 /-! ## the invariant is preserved by every well-formed transaction outside the excluded defect -/
 
-theorem linv_step (s : State) (hi : LInv s) (op : Op) (hwf : op.WF) (hok : specsOK s op = true)
-    (hne : noEarlyChild s op = true) : LInv (step s op).1 := by
+theorem linv_step_gen (hR : NppRel R) (s : State) (hi : LInv R s) (op : Op) (hwf : op.WF) (hok : specsOK s op = true)
+    (hne : noEarlyChild s op = true)
+    (hins : ∀ b upd user specs u, op = .insertJobs b upd user specs → findUpdate s b upd = some u → u.id = 1 → ∀ sp ∈ specs,
+      R (((jobParents u sp).filter fun p => !parentDone (step s op).1 b p).length : Int) ((jobParents u sp).length : Int)) :
+    LInv R (step s op).1 := by
   have hu' := (shape_step s op).unique hi.uniq
   have hd := stepDesc s hi.uniq hi.upd op
   cases hd with
   | same h => exact linv_same3 h hi
   | newUpdate b n hj hp hu hb hc h1 hlt => exact linv_newUpdate hi b n hj hp hu hb h1 hlt
   | insert b upd user specs u bt first hop hu hrej hj hp hupd =>
-    subst hop; exact linv_insert hi hu' hu hrej hj hp hupd hok
-  | commit b upd u hu hc hp hupd hj => exact linv_commit hi hu' hu hc hp hupd hj
+    subst hop; exact linv_insert hi hu' hu hrej hj hp hupd hok (hins b upd user specs u rfl hu)
+  | commit b upd u hu hc hp hupd hj => exact linv_commit hR hi hu' hu hc hp hupd hj
   | driver h => exact linv_driver hi hu' h
   | complete b j att inst ns st e r d job hop hj hact hatt hpu hjobs =>
-    subst hop; exact linv_complete hi hu' hwf hj hact hpu hjobs hne
+    subst hop; exact linv_complete hR hi hu' hwf hj hact hpu hjobs hne
+
+/-- the `≤` instance: no further hypothesis -/
+theorem linv_step (s : State) (hi : LInv (· ≤ ·) s) (op : Op) (hwf : op.WF) (hok : specsOK s op = true)
+    (hne : noEarlyChild s op = true) : LInv (· ≤ ·) (step s op).1 :=
+  linv_step_gen nppRel_le s hi op hwf hok hne
+    (fun _ _ _ _ _ _ _ _ _ _ => Int.ofNat_le.mpr (List.length_filter_le _ _))
 
 /-- with the invariant, every transaction moves every job row along the lifecycle relation -/
-theorem allowed_step {s s' : State} {op : Op} (h : StepDesc s op s') (hwf : op.WF) (hi : LInv s) (x : Job) (hx : x ∈ s.jobs)
+theorem allowed_step {s s' : State} {op : Op} (h : StepDesc s op s') (hwf : op.WF) (hi : LInv R s) (x : Job) (hx : x ∈ s.jobs)
     (x' : Job)
     (hx' : findJob s' x.batch x.id = some x') : allowed x.state x'.state = true := by
   have hfind := findJob_of_mem hi.uniq x hx
@@ -1618,5 +1654,92 @@ def wfB : Op → Bool
 
 theorem wf_of_wfB {op : Op} (h : wfB op = true) : op.WF := by
   cases op <;> first | exact h | trivial
+
+/-! ## tallies: one completion counts once -/
+
+/-- (n_completed, n_succeeded, n_failed, n_cancelled) of a group row -/
+def tallyOf (g : Group) : Int × Int × Int × Int := (g.nCompleted, g.nSucceeded, g.nFailed, g.nCancelled)
+
+/-- what one completion with state `ns` adds -/
+def tallyInc (ns : JState) : Int × Int × Int × Int :=
+  (1, b2i (ns ≠ .Cancelled ∧ ns ≠ .Error ∧ ns ≠ .Failed), b2i (ns = .Error ∨ ns = .Failed), b2i (ns = .Cancelled))
+
+def tallyAdd (a c : Int × Int × Int × Int) : Int × Int × Int × Int := (a.1 + c.1, a.2.1 + c.2.1, a.2.2.1 + c.2.2.1, a.2.2.2 + c.2.2.2)
+
+@[simp] theorem completePrep_groups (s : State) (b j : Nat) (att inst : Option Nat) (st e : Option Int) (r : String) (d : Nat)
+    (job : Job) : (completePrep s b j att inst st e r d job).groups = s.groups := by
+  unfold completePrep; dsimp only
+  cases att <;> dsimp only <;> split_ifs <;> simp [freeAdd]
+
+theorem ancestorsOf_congr {s s' : State} (e : s'.groups = s.groups) (b g : Nat) : ancestorsOf s' b g = ancestorsOf s b g := by
+  unfold ancestorsOf findGroup; rw [e]
+
+theorem tallyOf_tally (ns : JState) (g : Group) : tallyOf (tally ns g) = tallyAdd (tallyOf g) (tallyInc ns) := rfl
+
+def tallyKey (g : Group) : Nat × Nat × (Int × Int × Int × Int) := (g.batch, g.id, tallyOf g)
+
+theorem markGroupsComplete_tallies (s : State) (b g : Nat) :
+    (markGroupsComplete s b g).groups.map tallyKey = s.groups.map tallyKey := by
+  unfold markGroupsComplete
+  simp only [List.map_map]
+  apply List.map_congr_left
+  intro x _
+  simp only [Function.comp]
+  split_ifs <;> rfl
+
+theorem tallyGroups_tallies (s : State) (b g : Nat) (ns : JState) :
+    (tallyGroups s b g ns).groups.map tallyKey = s.groups.map (fun x => (x.batch, x.id,
+      if x.batch = b ∧ x.id ∈ ancestorsOf s b g then tallyAdd (tallyOf x) (tallyInc ns) else tallyOf x)) := by
+  unfold tallyGroups
+  simp only [List.map_map]
+  apply List.map_congr_left
+  intro x _
+  simp only [Function.comp, List.contains_iff_mem]
+  split_ifs <;> rfl
+
+/-- the group table after `mark_job_complete` took its main branch: identity columns kept, the tallies of the job's
+group and of every ancestor get `tallyInc`, all other rows keep theirs -/
+theorem completeJob_tallies (s : State) (b j : Nat) (att : Option Nat) (ns : JState) (job : Job) :
+    (completeJob s b j att ns job).groups.map tallyKey =
+      s.groups.map (fun g => (g.batch, g.id,
+        if g.batch = b ∧ g.id ∈ ancestorsOf s b job.group then tallyAdd (tallyOf g) (tallyInc ns) else tallyOf g)) := by
+  unfold completeJob
+  rw [markGroupsComplete_tallies]
+  show (tallyGroups (updateJobs s (isJob b j) (setStateAttempt ns att)) b job.group ns).groups.map tallyKey = _
+  rw [tallyGroups_tallies]
+  rfl
+
+/-- **one completion counts once**: `mark_job_complete` answering rc 0 on a job that was Ready / Creating / Running adds
+`tallyInc` to the job's group and every ancestor, and to no other group; on an already terminal job, or with a stale
+attempt id (rc 2), or on a Pending job (rc 1) it changes no group row at all -/
+theorem complete_tallies (s : State) (b j : Nat) (att inst : Option Nat) (ns : JState) (st e : Option Int) (r : String)
+    (d : Nat) (job : Job) (hj : findJob s b j = some job) :
+    (job.state.active = true → (complete s b j att inst ns st e r d).2 = .ok 0 →
+      (complete s b j att inst ns st e r d).1.groups.map tallyKey = s.groups.map (fun g => (g.batch, g.id,
+        if g.batch = b ∧ g.id ∈ ancestorsOf s b job.group then tallyAdd (tallyOf g) (tallyInc ns) else tallyOf g))) ∧
+    ((job.state.active = false ∨ (complete s b j att inst ns st e r d).2 ≠ .ok 0) →
+      (complete s b j att inst ns st e r d).1.groups = s.groups) := by
+  unfold complete findJobFk
+  by_cases hf : attemptFkFails s b j att inst = true
+  · -- `add_attempt` violated the foreign key on `instances`: nothing written, never `ok 0`
+    rw [if_pos hf]
+    exact ⟨fun _ h => by revert h; dsimp only; split_ifs <;> simp, fun _ => rfl⟩
+  rw [if_neg hf, hj]
+  dsimp only
+  split_ifs with h1 h2 h3
+  · exact ⟨fun _ h => by simp at h, fun _ => by simp⟩
+  · refine ⟨fun _ _ => ?_, fun h => ?_⟩
+    · rw [updateJobs_groups, completeJob_tallies]
+      have : ancestorsOf (completePrep s b j att inst st e r d job) b job.group = ancestorsOf s b job.group :=
+        ancestorsOf_congr (by simp) _ _
+      rw [this, completePrep_groups]
+    · exfalso
+      rcases h with h | h
+      · rcases h2 with k | k | k <;> rw [k] at h <;> simp [JState.active] at h
+      · exact h rfl
+  · refine ⟨fun ha _ => ?_, fun _ => by simp⟩
+    exfalso
+    exact h2 (by cases hs : job.state <;> simp_all [JState.active])
+  · refine ⟨fun _ h => by simp at h, fun _ => by simp⟩
 
 end HailVerif.BatchDB
